@@ -22,10 +22,11 @@ type clause struct {
 
 // FuncContract is the contract of one function (or closure, type, interface method).
 type FuncContract struct {
-	pkg               string // package path the block is declared in
-	key               string // "Recv.Name" or "Name"
-	anchor            string // for closures: source anchor inside the enclosing function
-	kind              string // func | closure | type | iface
+	relies            []clause // type contracts: conditions every implementation may rely on that are NOT checked at call sites (listed as assumptions)
+	pkg               string   // package path the block is declared in
+	key               string   // "Recv.Name" or "Name"
+	anchor            string   // for closures: source anchor inside the enclosing function
+	kind              string   // func | closure | type | iface
 	props             []string
 	requires          []clause
 	ensures           []clause
@@ -64,6 +65,7 @@ type closureSpec struct {
 	attrs    []ghostStmt
 	assumes  []clause // facts about captured, configuration-like state that still hold when the literal is invoked (assumed)
 	text     string
+	trusted  bool // the attributes are assumed, the body is not verified (listed as an assumption)
 }
 
 type ghostStmt struct {
@@ -81,6 +83,11 @@ type midAssert struct {
 func (c *FuncContract) assignsNothing() bool { return c != nil && c.assignsNone }
 
 // GhostFunc is an uninterpreted (or defined) specification function.
+type immutableDecl struct {
+	pkg  string
+	text string // T.f
+}
+
 type typeInv struct {
 	rep  bool // representation clause: a definition (assumed when a value is boxed); otherwise proved when boxed
 	cl   clause
@@ -109,15 +116,16 @@ type Lemma struct {
 }
 
 type ContractSet struct {
-	funcs    map[string]*FuncContract // pkgpath + "::" + key [+ "@" + anchor]
-	types    map[string]*FuncContract // pkgpath::TypeName
-	ifaces   map[string]*FuncContract // pkgpath::Iface.Method
-	ghosts   map[string]*GhostFunc    // name (global namespace)
-	lemmas   []*Lemma
-	axioms   []*Lemma
-	typeInvs map[string][]typeInv // pkgpath::TypeName -> invariants / representation clauses
-	order    []*FuncContract
-	errors   []string
+	funcs     map[string]*FuncContract // pkgpath + "::" + key [+ "@" + anchor]
+	types     map[string]*FuncContract // pkgpath::TypeName
+	ifaces    map[string]*FuncContract // pkgpath::Iface.Method
+	ghosts    map[string]*GhostFunc    // name (global namespace)
+	lemmas    []*Lemma
+	immutable []immutableDecl // registers that never change after construction (AST nodes after parsing)
+	axioms    []*Lemma
+	typeInvs  map[string][]typeInv // pkgpath::TypeName -> invariants / representation clauses
+	order     []*FuncContract
+	errors    []string
 }
 
 func newContractSet() *ContractSet {
@@ -224,6 +232,11 @@ func (cs *ContractSet) parseFile(pkgPath, filename string, lines []string, lineN
 			}
 			rest = strings.TrimSpace(rest)
 			var assumeTxt string
+			trustedSpec := false
+			if strings.HasSuffix(rest, " trusted") {
+				trustedSpec = true
+				rest = strings.TrimSpace(strings.TrimSuffix(rest, " trusted"))
+			}
 			if k := indexTop(rest, " assume "); k >= 0 {
 				assumeTxt = strings.TrimSpace(rest[k+8:])
 				rest = strings.TrimSpace(rest[:k])
@@ -234,7 +247,7 @@ func (cs *ContractSet) parseFile(pkgPath, filename string, lines []string, lineN
 				continue
 			}
 			anchor, _ := strconv.Unquote(m[1])
-			spec := closureSpec{anchor: anchor, typeName: m[2], text: rest}
+			spec := closureSpec{anchor: anchor, typeName: m[2], text: rest, trusted: trustedSpec}
 			if m[3] != "" {
 				for _, part := range splitTop(m[3], ',') {
 					k := indexTop(part, "=")
@@ -317,6 +330,13 @@ func (cs *ContractSet) parseFile(pkgPath, filename string, lines []string, lineN
 			}
 			g.pkg = pkgPath
 			cs.ghosts[g.name] = g
+			cur, curLemma = nil, nil
+		case "immutable":
+			for _, part := range splitTop(rest, ',') {
+				if p := strings.TrimSpace(part); p != "" {
+					cs.immutable = append(cs.immutable, immutableDecl{pkg: pkgPath, text: p})
+				}
+			}
 			cur, curLemma = nil, nil
 		case "axiom":
 			j := strings.Index(rest, ":")
@@ -444,7 +464,7 @@ func (cs *ContractSet) parseFile(pkgPath, filename string, lines []string, lineN
 			} else {
 				cur.asserts = append(cur.asserts, midAssert{anchor: anchor, cl: clause{kind: "assert", text: m[2], expr: ex, line: where, label: label}})
 			}
-		case "requires", "ensures", "decreases", "assigns", "invariant", "loop":
+		case "requires", "ensures", "decreases", "assigns", "invariant", "loop", "rely":
 			if cur == nil {
 				cs.errors = append(cs.errors, where+": clause outside a contract block: "+l)
 				continue
@@ -529,6 +549,8 @@ func (cs *ContractSet) parseFile(pkgPath, filename string, lines []string, lineN
 			switch kind {
 			case "requires":
 				cur.requires = append(cur.requires, cl)
+			case "rely":
+				cur.relies = append(cur.relies, cl)
 			case "ensures":
 				cur.ensures = append(cur.ensures, cl)
 			case "decreases":
